@@ -162,6 +162,75 @@ func corners(c *mon.Ctx) {
 		c.Count("corner_vectors_ok", 1)
 		c.Distinct(key)
 	}
+	for _, v := range ref.Versions {
+		// ERROR Read_timeout: "<data_present> is a single byte. If its value is 0, it means the replica that was
+		// asked for data has not responded. Otherwise, the value is != 0." — every non-zero byte means true.
+		for _, dp := range []byte{0x02, 0x80, 0xFF} {
+			var b []byte
+			b = append(b, 0, 0, 0x12, 0)                // code 0x1200
+			b = append(b, 0, 2, 'r', 't')               // message
+			b = append(b, 0, 1, 0, 0, 0, 1, 0, 0, 0, 2) // cl = ONE, received = 1, blockfor = 2
+			b = append(b, dp)
+			key := fmt.Sprintf("corner/ERROR.ReadTimeout/data_present=%#02x/%s", dp, v.String())
+			if _, err := ref.DecodeBody(ref.Header{Version: v, Response: true, Opcode: ref.OpError, Length: int32(len(b))}, b); err != nil {
+				c.Fatal("corner vector %s is refused by the reference decoder: %v", key, err)
+			}
+			c.Eval(1)
+			rd := bytes.NewReader(b)
+			var m message.Message
+			var err error
+			if pan, pv := mon.Guard(func() { m, err = msgCodec[primitive.OpCodeError].Decode(rd, primitive.ProtocolVersion(v)) }); pan {
+				c.Violation(key, map[string]interface{}{"version": v.String(), "bytes_hex": hex.EncodeToString(b), "panic": pv})
+				continue
+			}
+			rt, ok := m.(*message.ReadTimeout)
+			if err != nil || rd.Len() != 0 || !ok || !rt.DataPresent || rt.Received != 1 || rt.BlockFor != 2 {
+				c.Violation(key, map[string]interface{}{"version": v.String(), "bytes_hex": hex.EncodeToString(b), "error": fmt.Sprint(err), "bytes_left": rd.Len(),
+					"decoded": fmt.Sprintf("%+v", m), "want": "ReadTimeout{Received:1 BlockFor:2 DataPresent:true}: any non-zero <data_present> byte means true"})
+				continue
+			}
+			c.Count("corner_vectors_ok", 1)
+			c.Distinct(key)
+		}
+		// RESULT Rows with more rows than fit a [short]: <rows_count> is an [int]; 70000 one-byte cells
+		{
+			const nrows = 70000
+			b := make([]byte, 0, 16+5*nrows)
+			b = append(b, 0, 0, 0, 2)             // kind = Rows
+			b = append(b, 0, 0, 0, 4, 0, 0, 0, 1) // flags = No_metadata, columns_count = 1
+			b = append(b, byte(uint32(nrows)>>24), byte(uint32(nrows)>>16&0xff), byte(uint32(nrows)>>8&0xff), byte(uint32(nrows)&0xff))
+			for i := 0; i < nrows; i++ {
+				b = append(b, 0, 0, 0, 1, byte(i))
+			}
+			key := "corner/RESULT.Rows/70000-rows/" + v.String()
+			c.Eval(1)
+			rd := bytes.NewReader(b)
+			var m message.Message
+			var err error
+			if pan, pv := mon.Guard(func() { m, err = msgCodec[primitive.OpCodeResult].Decode(rd, primitive.ProtocolVersion(v)) }); pan {
+				c.Violation(key, map[string]interface{}{"version": v.String(), "panic": pv})
+				continue
+			}
+			rows, ok := m.(*message.RowsResult)
+			good := err == nil && rd.Len() == 0 && ok && len(rows.Data) == nrows
+			if good {
+				for _, i := range []int{0, 65535, 65536, nrows - 1} {
+					good = good && len(rows.Data[i]) == 1 && len(rows.Data[i][0]) == 1 && rows.Data[i][0][0] == byte(i)
+				}
+			}
+			if !good {
+				got := -1
+				if ok {
+					got = len(rows.Data)
+				}
+				c.Violation(key, map[string]interface{}{"version": v.String(), "error": fmt.Sprint(err), "bytes_left": rd.Len(), "rows_decoded": got,
+					"want": "70000 rows of one 1-byte cell each (cell i holds byte(i)), every byte consumed"})
+				continue
+			}
+			c.Count("corner_vectors_ok", 1)
+			c.Distinct(key)
+		}
+	}
 }
 
 // compressed judges the body compression formats of spec §5 at frame level, for legacy-framed versions:
